@@ -135,6 +135,35 @@ def worker(job):
     return res
 
 
+def presence_job(job):
+    """feed rows without results (NaN) for baseline units: every unit of the feed is in the unit table exactly once, and the votes that did
+    arrive are all counted (nonparametric / gaussian; the units with missing results contribute nothing)"""
+    seed, pi = job
+    rng = random.Random(seed)
+    case = gen.gen_case(rng, pi_method=pi, nan_rows=True, n_unexpected=1, office=rng.choice(["S", "P"]), aggregates=["postal_code", "county_fips", "unit"], special=False, blocklist=False, outlier=False)
+    h = aggfam.harvest(case)
+    p = case["params"]
+    res = {"job": list(job), "ok": h["ok"], "exc": h.get("exc"), "s": [], "policy": p["handle_unreporting"], "nan_units": [f["geographic_unit_fips"] for f in case["feed"] if f["results_turnout"] is None]}
+    if not h["ok"]:
+        return res
+    exp = aggfam.expected_ids(case)
+    for e in p["estimands"]:
+        ids = [r["geographic_unit_fips"] for r in h["unit"][e]]
+        if len(ids) != len(set(ids)):
+            res["s"].append({"what": f"unit table for {e} lists a unit twice", "kind": "unit-dup"})
+        if set(ids) != set(exp):
+            res["s"].append({"what": f"unit table for {e} ({p['handle_unreporting']} policy, feed units without results: {res['nan_units']}): missing "
+                                     f"{sorted(set(exp) - set(ids))[:3]} extra {sorted(set(ids) - set(exp))[:3]}", "kind": "unit-set"})
+        col = f"results_{e}"
+        total_feed = sum(f[col] for f in case["feed"] if f.get(col) is not None)
+        st = h["agg"].get(f"{e}|postal_code")
+        if st is not None:
+            got = sum(r[col] for r in st["rows"] if r[col] == r[col])
+            if abs(got - total_feed) > 1e-6 * max(1, abs(total_feed)):
+                res["s"].append({"what": f"state table for {e}: {got} counted votes, the feed holds {total_feed}", "kind": "group-sum"})
+    return res
+
+
 def jobs_for(chk):
     n = 45 if chk.tier == "quick" else 900
     rng = random.Random(chk.seed * 7919 + 1)
@@ -201,6 +230,14 @@ def run(chk):
         if j in mismatch and not o["s"]:
             chk.violation(f"implementation tables differ from the model's ({mismatch[j][:3]}) but the C01 predicate holds on this output",
                           dict(replay, correspondence="coq/Model/AggCheck.v check on " + str(mismatch[j][:3])), {"kind": "model-diff"}, no_input=True)
+    # feed rows without results
+    prng = random.Random(chk.seed * 7919 + 1)
+    pjobs = [(prng.randint(0, 2**31), ["nonparametric", "gaussian"][i % 2]) for i in range(6 if chk.tier == "quick" else 60)]
+    for o in core.pmap(presence_job, pjobs):
+        chk.count({"presence": True, "pi": o["job"][1], "policy": o.get("policy"), "ok": o["ok"]}, nontrivial=bool(o["ok"] and o.get("nan_units")),
+                  sample={"stream": "feed rows without results", "estimator": o["job"][1], "policy": o.get("policy"), "units_without_results": o.get("nan_units"), "completed": o["ok"]})
+        for f in o["s"]:
+            chk.violation(f["what"], {"kind": "presence", "job": o["job"]}, {"kind": f["kind"], "nan_rows": True})
     if n_ok < max(3, len(outs) // 4):
         chk.violation(f"only {n_ok} of {len(outs)} generated runs completed; C01 cannot be evaluated", {"kind": "coverage", "excs": [o['exc'] for o in outs if not o['ok']][:5]},
                       {"kind": "coverage"}, no_input=True)
@@ -210,7 +247,15 @@ def run(chk):
                                    "raised_kinds": sorted({(o["exc"] or ["?"])[0] for o in outs if not o["ok"]})})
 
 
+def replay_presence(payload):
+    o = presence_job(tuple(payload["replay"]["job"]))
+    print(json.dumps({k: o.get(k) for k in ("ok", "exc", "s", "nan_units", "policy")}, indent=1, default=str))
+    return 1 if o["s"] else 0
+
+
 def replay(chk, payload):
+    if payload["replay"].get("kind") == "presence":
+        return replay_presence(payload)
     r = payload["replay"]
     o = worker((r["seed"], r["kw"]))
     print(json.dumps({"ok": o["ok"], "exc": o["exc"], "s": o["s"], "problems": o["problems"]}, indent=1, default=str))
